@@ -7,7 +7,8 @@
     [handle] of C02).  [dec]/[enc] are encoding/json (Unmarshal / Marshal of the result).
     Other concurrent requests on the reply topic are the foreign notifications of the stream. *)
 From WM Require Import Base.Prelude Message.Model Handler.RouterHandle
-  ReqReply.Listen ReqReply.Processed ReqReply.ListenProofs ReqReply.ProcessedProofs ReqReply.Compose.
+  ReqReply.Listen ReqReply.Processed ReqReply.ListenProofs ReqReply.ProcessedProofs ReqReply.Compose
+  ReqReply.Caller ReqReply.CallerProofs ReqReply.Marshaler ReqReply.MarshalerProofs.
 
 (** every reply a caller receives is the final timeout reply or was built from a notification
     carrying the caller's own operation id - for every stream, caller behaviour and schedule *)
@@ -50,9 +51,9 @@ Proof. exact reply_content. Qed.
 
 Theorem C18_reply_content_end_to_end : forall dec enc c stream ls r,
   (forall x p, enc x = Some p -> dec p = Some x) ->
-  In r (got (lrun dec c (linit stream) ls)) ->
+  In r (got (lrun (unm_json dec) c (linit stream) ls)) ->
   is_final r = true \/
-  exists n, In n stream /\ n_op n = opid c /\ r = reply_of dec n
+  exists n, In n stream /\ n_op n = opid c /\ r = reply_of (unm_json dec) n
     /\ forall pc i, In (PPublish n) (fst (on_processed enc pc i)) ->
          r = ROwn (p_res i) (p_err i) (p_nid i) /\ p_op i = opid c.
 Proof. exact reply_end_to_end. Qed.
@@ -138,6 +139,125 @@ Theorem C18_listener_terminates_refuted_unread_reply :
     /\ leaked dec c stream (lrun dec c (linit stream) ls).
 Proof. exact listener_terminates_refuted_unread_reply. Qed.
 
+(** ** the caller side as its own thread (ReqReply/Caller.v: SendWithReplies / SendWithReply of
+    command_bus.go composed with the listener) *)
+
+(** the listener part of every reachable state of the composed system is a reachable state of the
+    listener system: everything above holds of the composed system *)
+Theorem C18_composed_is_listener_run : forall dec c a stream cls,
+  exists lls, lsys (crun dec c a (cinit stream) cls) = lrun dec c (linit stream) lls.
+Proof. exact composed_reach. Qed.
+
+(** SendWithReply returns exactly one reply - the timeout reply or one built from a notification
+    of its own operation id, the FIRST own reply when read while the listener's context was alive -
+    or the context error (only if the user's context ended) or the send error; never a foreign
+    reply, never the zero Reply of a closed channel *)
+Theorem C18_sendwithreply_returns : forall dec c stream cls o,
+  let s := crun dec c ApiReply (cinit stream) cls in
+  kp s = KReturned o ->
+  match o with
+  | OReply r => got (lsys s) = [r]
+      /\ (is_final r = true \/ exists n, In n stream /\ n_op n = opid c /\ r = reply_of dec n)
+      /\ (pre (lsys s) = [r] -> exists t, own_replies dec c stream = r :: t)
+  | OCtxErr => pctx s = true /\ got (lsys s) = []
+  | OSendErr => got (lsys s) = []
+  | OZero => False
+  end.
+Proof. exact swr_result. Qed.
+
+(** after the caller returned (SendWithReply: always through its deferred cancel; SendWithReplies:
+    on the send error) the listener's context has ended: the repaired listener is never blocked and
+    rests only when finished, channel closed, hook run exactly once (uses C18_listener_terminates) *)
+Theorem C18_returned_caller_listener_terminates : forall dec c a stream cls o,
+  fixed c = true ->
+  let s := crun dec c a (cinit stream) cls in
+  kp s = KReturned o ->
+  ctx_done (lsys s) = true
+  /\ (pc (lsys s) <> PDone -> exists l s', llabel l = true /\ lstep dec c (lsys s) l = Some s')
+  /\ (quiescent dec c (lsys s) = true ->
+      pc (lsys s) = PDone /\ listener_ok dec c stream (obs_of (lsys s)) = true).
+Proof. exact returned_listener_terminates. Qed.
+
+Theorem C18_returned_caller_is_gone : forall dec c a cls s o, kp s = KReturned o ->
+  kp (crun dec c a s cls) = KReturned o /\ got (lsys (crun dec c a s cls)) = got (lsys s).
+Proof. exact returned_caller_is_gone. Qed.
+
+(** SendWithReplies: the channel handed to the user yields own replies only, in arrival order
+    (acceptor safe_ok), is closed at most once and exactly once when the listener has finished; on a
+    send error nothing was read and the context is cancelled *)
+Theorem C18_sendwithreplies_channel : forall dec c stream cls,
+  let s := crun dec c ApiReplies (cinit stream) cls in
+  safe_ok dec c stream (obs_of (lsys s)) = true
+  /\ closes (lsys s) <= 1 /\ panicked (lsys s) = false
+  /\ (pc (lsys s) = PDone -> chan_closed (lsys s) = true /\ closes (lsys s) = 1)
+  /\ (forall o, kp s = KReturned o -> o = OSendErr /\ got (lsys s) = [] /\ ctx_done (lsys s) = true).
+Proof. exact swrs_channel. Qed.
+
+(** ** N listeners sharing one reply topic, any interleaving: the product system *)
+Theorem C18_product_independent : forall dec cs streams sched i,
+  nrun dec cs (ninit streams) sched i = lrun dec (cs i) (linit (streams i)) (sched_of i sched).
+Proof. exact product_independent. Qed.
+
+Theorem C18_product_replies_do_not_cross : forall dec cs streams sched i r,
+  In r (got (nrun dec cs (ninit streams) sched i)) ->
+  is_final r = true \/
+  exists n, In n (streams i) /\ n_op n = opid (cs i) /\ r = reply_of dec n
+    /\ forall j, opid (cs j) <> opid (cs i) -> own (cs j) n = false.
+Proof. exact product_replies_do_not_cross. Qed.
+
+Theorem C18_product_safe : forall dec cs streams sched i,
+  safe_ok dec (cs i) (streams i) (obs_of (nrun dec cs (ninit streams) sched i)) = true.
+Proof. exact product_safe. Qed.
+
+Theorem C18_product_terminates : forall dec cs streams sched i,
+  fixed (cs i) = true ->
+  quiescent dec (cs i) (nrun dec cs (ninit streams) sched i) = true ->
+  listener_ok dec (cs i) (streams i) (obs_of (nrun dec cs (ninit streams) sched i)) = true.
+Proof. exact product_terminates. Qed.
+
+Print Assumptions C18_composed_is_listener_run.
+Print Assumptions C18_sendwithreply_returns.
+Print Assumptions C18_returned_caller_listener_terminates.
+Print Assumptions C18_returned_caller_is_gone.
+Print Assumptions C18_sendwithreplies_channel.
+Print Assumptions C18_product_independent.
+Print Assumptions C18_product_replies_do_not_cross.
+Print Assumptions C18_product_safe.
+Print Assumptions C18_product_terminates.
+(** ** custom marshalers, as coded.  The listener theorems above hold for ANY UnmarshalReply ([dec] is
+    the whole unmarshaler; [unm_json] is the JSON instance): the operation-id filter comes first, so
+    a foreign notification never reaches the unmarshaler's verdict.  On the handler side: *)
+
+(** whatever operation id MarshalReply wrote or dropped, the backend stamps the command's over it *)
+Theorem C18_custom_marshaler_op_id_stamped : forall cmarshal modify c i n,
+  has_modify c = false ->
+  In (PPublish n) (fst (on_processed_custom cmarshal modify c i)) ->
+  p_op i <> 0%N /\ exists m, cmarshal (p_res i) (p_err i) = Some m /\ n = stamp_op m (p_op i).
+Proof. exact custom_marshaler_op_id_stamped. Qed.
+
+(** ModifyNotificationMessage runs AFTER the stamping (so it is the one place that can drop the id) *)
+Theorem C18_custom_modify_applied_after_stamp : forall cmarshal modify c i n,
+  has_modify c = true ->
+  In (PPublish n) (fst (on_processed_custom cmarshal modify c i)) ->
+  exists m, cmarshal (p_res i) (p_err i) = Some m /\ modify (stamp_op m (p_op i)) = Some n.
+Proof. exact custom_modify_applied_after_stamp. Qed.
+
+Theorem C18_custom_json_instance : forall enc c i,
+  has_modify c = false \/ p_modify_ok i = true ->
+  on_processed_custom (cmarshal_json enc (p_nid i)) (fun n => if p_modify_ok i then Some n else None) c i
+  = on_processed enc c i.
+Proof. exact custom_json_instance. Qed.
+
+(** ... and a notification that reaches the topic without the requester's id is lost: acked, never handed over *)
+Theorem C18_reply_without_op_id_is_lost : forall dec c stream ls r,
+  (forall n, In n stream -> n_op n <> opid c) ->
+  In r (got (lrun dec c (linit stream) ls)) -> is_final r = true.
+Proof. exact reply_without_op_id_is_lost. Qed.
+
+Print Assumptions C18_custom_marshaler_op_id_stamped.
+Print Assumptions C18_custom_modify_applied_after_stamp.
+Print Assumptions C18_custom_json_instance.
+Print Assumptions C18_reply_without_op_id_is_lost.
 Print Assumptions C18_only_own_replies.
 Print Assumptions C18_replies_do_not_cross.
 Print Assumptions C18_listener_safe.
@@ -182,7 +302,7 @@ Proof. reflexivity. Qed.
 
 (** non-vacuity: foreign and malformed notifications between two own ones; the caller drains *)
 Example C18_witness_filter :
-  let dec := fun p : N => if N.eqb p 9 then None else Some p in
+  let dec := unm_json (fun p : N => if N.eqb p 9 then None else Some p) in
   let stream := [Notif 1 8 1 false 0; Notif 2 7 9 false 0; Notif 3 0 1 false 0; Notif 4 7 4 true 5] in
   let s := lrun dec (d10_cfg true) (linit stream)
              [LRecv; LRecv; LSend; CRead; LRecv; LRecv; LSend; CRead; ECancel; LCtx; LSend; CRead;
@@ -198,4 +318,23 @@ Example C18_witness_processed :
    snd (process enc (PCfg true false false) (PIn true 7 3 None 11 true true false false)))
   = (([TP PCall; TP (PPublish (Notif 11 7 103 true 5)); TP (PPublishRet true); TR (HSettle false true)], Nacked),
      Nacked).
+Proof. reflexivity. Qed.
+
+(** non-vacuity: SendWithReply, two own replies: it returns the first one, its deferred cancel ends
+    the listener's context, the listener abandons nothing (second reply buffered), skips the final
+    reply and finishes; and two listeners on one topic each get only their own reply *)
+Example C18_witness_sendwithreply :
+  let s := crun d10_dec (d10_cfg true) ApiReply (cinit d10_stream)
+             [KSendOk; CL LRecv; CL LSend; KTakeReply; CL LRecv; CL LSend; KCancel;
+              CL LCtx; CL LSkip; CL LCancel; CL LClose; CL LHook; KTakeReply; URead] in
+  (kp s, got (lsys s), buf (lsys s), pc (lsys s), hooks (lsys s), closes (lsys s))
+  = (KReturned (OReply (ROwn 1 None 1)), [ROwn 1 None 1], [ROwn 2 None 2], PDone, 1, 1).
+Proof. reflexivity. Qed.
+
+Example C18_witness_product :
+  let cs := fun i => Cfg true (if Nat.eqb i 0 then 7 else 8)%N true false in
+  let stream := [Notif 1 7 1 false 0; Notif 2 8 2 false 0] in
+  let ss := nrun d10_dec cs (ninit (fun _ => stream))
+              [(0, LRecv); (1, LRecv); (0, LSend); (1, LRecv); (1, LSend); (0, CRead); (1, CRead); (0, LRecv)] in
+  (got (ss 0), got (ss 1), acks (ss 0), acks (ss 1)) = ([ROwn 1 None 1], [ROwn 2 None 2], [1; 2]%N, [1; 2]%N).
 Proof. reflexivity. Qed.
